@@ -178,6 +178,15 @@ A_OBS = [
 ]
 
 
+def obs_life_plans(tier):
+    """histories for the read-side properties: the accessors are called at the start and after every step"""
+    if tier != "quick":
+        return life_plans(tier)
+    return [dict(name="all2", mode="alphabet", theme="all", objs=[1], depth=2),
+            dict(name="all3", mode="alphabet", theme="all", objs=[1], depth=3, cap=800),
+            dict(name="random", mode="random", objs=[1, 2], depth=8, num=25, cap=200)]
+
+
 def obs_property(families, life=True):
     def run(report, tier, seed):
         from . import observe
@@ -185,7 +194,7 @@ def obs_property(families, life=True):
         if report.prop in ("C15", "C17"):
             covs.append(("send_story", observe.run_send(report, tier, seed)))
         if life:
-            covs.append(("life", pipeline.run_life_check(report, life_plans(tier), seed, tier, observe=True)))
+            covs.append(("life", pipeline.run_life_check(report, obs_life_plans(tier), seed, tier, observe=True)))
         cov = combine(covs)
         cov["trusted_base"] = TRUSTED + ["harness/project.py view_ro_xml (direct read of timing / body data)", "harness/observe.py"]
         return report.finish(cov, A_OBS + (A_LIFE if life else []))
